@@ -1253,12 +1253,64 @@ class Engine:
 			yield s2, (vs if isinstance(vs, Raised) else tuple(vs))
 
 	def e_List(self, node, st):
+		if any(isinstance(e, ast.Starred) for e in node.elts):
+			yield from self._starred_list(node, st)
+			return
 		for s2, vs in self.ev_list(node.elts, st):
 			if isinstance(vs, Raised):
 				yield s2, vs
 				continue
 			r = Ref('list')
 			s2.heap[r.addr] = list(vs)
+			yield s2, r
+
+	def _starred_list(self, node, st):
+		"""[a, *xs, b]: concatenation; with a symbolic part the result is a fresh sequence defined piecewise"""
+		plain = [e.value if isinstance(e, ast.Starred) else e for e in node.elts]
+		for s2, vs in self.ev_list(plain, st):
+			if isinstance(vs, Raised):
+				yield s2, vs
+				continue
+			parts = []
+			for e, v in zip(node.elts, vs):
+				if isinstance(e, ast.Starred):
+					d = s2.deref(v)
+					if isinstance(d, ConcreteIter):
+						d = d.items
+					parts.append(('seq', d))
+				else:
+					parts.append(('one', v))
+			if all(k == 'one' or isinstance(d, (list, tuple)) for k, d in parts):
+				out = []
+				for k, d in parts:
+					out.extend([d] if k == 'one' else list(d))
+				r = Ref('list')
+				s2.heap[r.addr] = out
+				yield s2, r
+				continue
+			T = None
+			for k, d in parts:
+				if k == 'seq' and isinstance(d, SSeq):
+					T = d.T
+			if T is None:
+				raise Unsupported('starred list display over non-sequences')
+			R = TSeq(T).fresh('cat')
+			off = z3.IntVal(0)
+			for k, d in parts:
+				if k == 'one':
+					s2.assume(z3.Select(R.arr, off) == T.unwrap(d))
+					off = off + 1
+				elif isinstance(d, (list, tuple)):
+					for x in d:
+						s2.assume(z3.Select(R.arr, off) == T.unwrap(x))
+						off = off + 1
+				else:
+					j = z3.Int(fresh_name('j'))
+					s2.assume(z3.ForAll([j], z3.Implies(z3.And(0 <= j, j < d.length), z3.Select(R.arr, off + j) == z3.Select(d.arr, j))))
+					off = off + d.length
+			s2.assume(R.length == z3.simplify(off))
+			r = Ref('list')
+			s2.heap[r.addr] = R
 			yield s2, r
 
 	def e_Dict(self, node, st):
